@@ -472,7 +472,7 @@ def run_check(plugin, tier, seed, replay=None):
             known = [x for x in cs if x >= 100]
             if mons:
                 monitor_fail.append({"codes": mons, "step": stepno, "what": "; ".join(plugin.CODES.get(x, "monitor %d" % x) for x in mons), "case": c, "result": r})
-            elif 1 in cs:
+            if 1 in cs:
                 corr_broken.append({"what": "model does not predict the implementation (step_ok false)", "step": stepno, "case": c, "result": r})
             for x in known:
                 # a failing monitor inside a region is a known finding only if known_findings.json lists it;
